@@ -22,7 +22,7 @@ METHOD_OF = {"len": "HallOfFame.__len__", "getitem": "HallOfFame.__getitem__", "
 def regen(repo=None):
     """Tie (T): regenerate coq/Gen/C08_gen.v from the working tree's deap/tools/support.py.
     Returns (ok, message, status) -- status: method key -> None (translated) | Refuse (placeholder = the reference
-    transcription Model/C08_GenRef.v); ok is False when nothing could be translated."""
+    transcription harness/c08_gen_ref.v.in); ok is False when nothing could be translated."""
     import c08_py2coq
     repo = repo or vlib.REPO
     try:
